@@ -18,11 +18,14 @@
     * **sender thread** — pops the priority queue and writes to the port (`sSend`; it is stopped
       while the print thread runs);
     * **device** — consumes one received command and answers with status lines followed by exactly
-      one terminal reply, `ok…` or `error…|alarm…|!!…` (`dProcess`), after any delay.
+      one terminal reply, `ok…` or `error…|alarm…|!!…` (`dProcess`), after any delay; it may also push,
+      at any time, a line that is not the terminal reply of any command but sets the writer's flags:
+      a surplus `ok` (e.g. the `ok` Marlin sends after an `Error:` line) or an unsolicited
+      `error…|alarm…|!!…` line (e.g. Grbl's `ALARM:1` after the move was acknowledged) (`dPush`).
 
     Commands carry ghost identities (`probe`, `reset`, `stmt k` = the k-th statement handed to
     `write`); the model never inspects or alters a payload.  Ghost fields (`heard`, `devBad`,
-    `backlog`, `probes`, `discRaised`) are written, never read, by the transitions. -/
+    `backlog`, `probes`, `discRaised`, `surplusHit`, `anyXbad`, `dueErr`) are written, never read, by the transitions. -/
 namespace GscribModel.DirectWrite
 
 inductive Cmd where
@@ -36,6 +39,8 @@ inductive Reply where
   | temp                  -- same, but contains "T:" (brings printcore online during the handshake)
   | ok (c : Cmd)          -- terminal: acknowledgement (c is ghost: the command the device answered)
   | bad (c : Cmd)         -- terminal: error reply
+  | xok                   -- surplus `ok…`: acknowledges nothing, but sets the ack event / `clear`
+  | xbad                  -- unsolicited `error…|alarm…|!!…` line: not the reply to any command
 deriving Repr, DecidableEq
 
 def Reply.terminal : Reply → Bool
@@ -76,6 +81,10 @@ structure St where
   backlog  : Bool := false            -- ghost: a command was still unanswered when `startprint` ran
   probes   : Nat := 0                 -- ghost: number of probes sent
   discRaised : Bool := false          -- ghost: disconnect(wait=True) re-raised a stored error
+  surplusHit : Bool := false          -- ghost: a surplus/unsolicited flag-setting line was read while connect()
+                                      --   awaited a reset or a write() had cleared the flag and not yet seen its own reply
+  anyXbad  : Bool := false            -- ghost: an unsolicited error line has been read
+  dueErr   : Bool := false            -- ghost: an error line has been read and not yet raised to the caller
 deriving Repr, DecidableEq
 
 inductive Act where
@@ -84,6 +93,7 @@ inductive Act where
   | wClear | wEnq | wWake | wFinish
   | sSend
   | dProcess (pre : List Bool) (isErr : Bool)   -- `pre`: one non-terminal line each, `true` = contains "T:"
+  | dPush (isErr : Bool)                         -- a surplus `ok` (false) / an unsolicited error line (true)
 deriving Repr, DecidableEq
 
 /-- terminal replies still on the wire -/
@@ -99,6 +109,16 @@ def tx (s : St) (c : Cmd) : St :=
   if s.lost then { s with toDev := s.toDev ++ [c], err := true, ack := true }
   else { s with toDev := s.toDev ++ [c] }
 
+/-- Would a flag-setting line that is nobody's terminal reply do harm right now?  Yes while `connect()`
+    awaits a line-number reset (it raises `clear`), and while a `write()` has cleared the acknowledgement
+    flag and the reply to its own statement has not been read yet (the flag survives until `wait()`). -/
+def surplusNow (s : St) : Bool :=
+  s.cphase == .waitPending ||
+  match s.wstate with
+  | .cleared _ => true
+  | .waiting k => !(s.heard.contains (.stmt k))
+  | _ => false
+
 /-- One received line: `_on_device_message` (classification by prefix), then `_listen_until_online`
     (not yet online: `ok…` / "T:" bring the printer online) or `_listen` (`ok…` sets `clear`). -/
 def hear (s : St) : Reply → St
@@ -107,7 +127,12 @@ def hear (s : St) : Reply → St
   | .ok c =>
       if s.online then { s with ack := true, heard := s.heard ++ [c], clear := true }
       else { s with ack := true, heard := s.heard ++ [c], online := true }
-  | .bad c => { s with ack := true, err := true, heard := s.heard ++ [c] }
+  | .bad c => { s with ack := true, err := true, heard := s.heard ++ [c], dueErr := true }
+  | .xok =>
+      if s.online then { s with ack := true, clear := true, surplusHit := s.surplusHit || surplusNow s }
+      else { s with ack := true, online := true, surplusHit := s.surplusHit || surplusNow s }
+  | .xbad => { s with ack := true, err := true, anyXbad := true, dueErr := true,
+                      surplusHit := s.surplusHit || surplusNow s }
 
 def preLine (t : Bool) : Reply := if t then .temp else .status
 
@@ -126,7 +151,7 @@ def stepLive (s : St) : Act → Option St
       else some { s with lost := true, err := true, ack := true, clear := true }
   | .cOnline =>
       if s.cphase = .waitOnline ∧ s.online = true then
-        if s.err then some { s with err := false, cphase := .failed }
+        if s.err then some { s with err := false, dueErr := false, cphase := .failed }
         else some (tx { s with printing := true, clear := false, cphase := .waitPending,
                                backlog := !(s.toDev.isEmpty && (termOf s.toHost).isEmpty) } .reset)
       else none
@@ -139,13 +164,13 @@ def stepLive (s : St) : Act → Option St
   | .cPoll =>
       if s.cphase = .waitPending then
         if pending s then
-          if s.err then some { s with err := false, cphase := .failed } else none
+          if s.err then some { s with err := false, dueErr := false, cphase := .failed } else none
         else some { s with cphase := .connected }
       else none
   | .cDisc =>
       if s.cphase = .connected then
         if pending s then
-          if s.err then some { s with err := false, cphase := .disconnected, discRaised := true } else none
+          if s.err then some { s with err := false, dueErr := false, cphase := .disconnected, discRaised := true } else none
         else some { s with cphase := .disconnected }
       else none
   | .wClear =>
@@ -162,7 +187,7 @@ def stepLive (s : St) : Act → Option St
       | _ => none
   | .wFinish =>
       match s.wstate with
-      | .woke k => some { s with outcomes := s.outcomes ++ [(k, s.err)], err := false, wstate := .idle }
+      | .woke k => some { s with outcomes := s.outcomes ++ [(k, s.err)], err := false, dueErr := false, wstate := .idle }
       | _ => none
   | .sSend =>
       if s.printing then none else
@@ -177,6 +202,8 @@ def stepLive (s : St) : Act → Option St
           some { s with toDev := cs, devLog := s.devLog ++ [c],
                         devBad := if isErr then s.devBad ++ [c] else s.devBad,
                         toHost := s.toHost ++ pre.map preLine ++ [if isErr then .bad c else .ok c] }
+  | .dPush isErr =>
+      if s.lost then none else some { s with toHost := s.toHost ++ [if isErr then .xbad else .xok] }
 
 /-- the writer's device object is gone: nothing runs any more -/
 def halted (s : St) : Bool := s.cphase == .failed || s.cphase == .disconnected
@@ -202,25 +229,33 @@ def stmtIds : List Cmd → List Nat
 structure Cfg where
   nwrites : Nat := 0
   disc    : Bool := false
+  gated   : Bool := false   -- the caller starts a `write()` / `disconnect()` only when told to (`permits`)
+  permits : Nat := 0
 deriving Repr
+
+def callerMay (cfg : Cfg) : Bool := !cfg.gated || cfg.permits > 0
 
 def hostActs (cfg : Cfg) (s : St) : List Act :=
   [.cOnline, .pSendnext, .cPoll, .sSend, .wWake, .wFinish]
-  ++ (if s.next < cfg.nwrites then [.wClear] else [])
+  ++ (if s.next < cfg.nwrites ∧ callerMay cfg then [.wClear] else [])
   ++ [.wEnq]
-  ++ (if cfg.disc ∧ s.next = cfg.nwrites ∧ s.wstate = .idle then [.cDisc] else [])
+  ++ (if cfg.disc ∧ s.next = cfg.nwrites ∧ s.wstate = .idle ∧ callerMay cfg then [.cDisc] else [])
 
-def firstEnabled (s : St) : List Act → Option St
+def firstEnabled (s : St) : List Act → Option (St × Act)
   | [] => none
   | a :: as => match step s a with
-      | some s' => some s'
+      | some s' => some (s', a)
       | none => firstEnabled s as
 
-def settle (cfg : Cfg) : Nat → St → St
-  | 0, s => s
-  | fuel + 1, s => match firstEnabled s (hostActs cfg s) with
-      | some s' => settle cfg fuel s'
-      | none => s
+/-- a permit is used up by the caller step that starts a call -/
+def spend (cfg : Cfg) (a : Act) : Cfg :=
+  if cfg.gated ∧ (a = .wClear ∨ a = .cDisc) then { cfg with permits := cfg.permits - 1 } else cfg
+
+def settle : Nat → Cfg → St → St × Cfg
+  | 0, cfg, s => (s, cfg)
+  | fuel + 1, cfg, s => match firstEnabled s (hostActs cfg s) with
+      | some (s', a) => settle fuel (spend cfg a) s'
+      | none => (s, cfg)
 
 /-- try one action; `none` if it is not enabled -/
 def tryAct (s : St) (a : Act) : St × Bool :=
